@@ -197,7 +197,30 @@ fn rand_rec(rng: &mut Rng, d: &str, log: &mut Log) -> Rec {
         }
         attrs.push((k, vs));
     }
-    if nk == 0 {
+    if rng.chance(1, 5) {
+        // keys that differ in letter case only (and, for GFF3, by a trailing space): distinct keys
+        let fam: &[&[u8]] = match rng.below(3) {
+            0 => &[b"Note", b"note", b"NOTE"],
+            1 => &[b"ID", b"Id", b"id"],
+            _ => &[b"Parent", b"parent", b"pArent"],
+        };
+        let cnt = rng.range(2, 3) as usize;
+        for k in fam.iter().take(cnt) {
+            if !attrs.iter().any(|(k2, _)| k2 == k) {
+                let nv = rng.range(1, 3) as usize;
+                attrs.push((k.to_vec(), (0..nv).map(|_| atom(rng, d, 5)).collect()));
+            }
+        }
+        if d == "gff3" && rng.coin() {
+            let mut k = fam[0].to_vec();
+            k.push(b' ');
+            if !attrs.iter().any(|(k2, _)| *k2 == k) {
+                attrs.push((k, vec![atom(rng, d, 4)]));
+            }
+        }
+        log.oblige("gff_attribute_keys_differing_in_case_only");
+    }
+    if attrs.is_empty() {
         log.oblige("attrs_empty");
     }
     let (start, end) = (coord(rng), coord(rng));
